@@ -61,3 +61,22 @@ Theorem C06_exclusions_ignore_links : forall (islink : str -> bool) (pat : Type)
   existsb (fun p => RealMatch.fs_match islink2 (rematch p g) g true root) exclude.
 Proof. exact RealLemmas.exclusions_ignore_links. Qed.
 Print Assumptions C06_exclusions_ignore_links.
+
+(* ---- the deep walk of a `**` part reaches exactly the chains of descendable directories --------------------------------
+   descendable = not `.`/`..`, not hidden (unless DOTGLOB), a directory, and not a symbolic link unless FOLLOW is on or the
+   part is a `***` (GlobWhole.descends); sound and complete for every listing oracle, matcher and depth *)
+From WC Require Glob.
+From WC.Proofs Require GlobWhole GlobLemmas.
+Theorem C06_deep_walk_sound : forall scandir segmatch cf m dir_only gf fuel curdir hits,
+  Glob.glob_dir scandir segmatch cf fuel curdir m dir_only true gf = Some hits ->
+  forall h, In h hits -> exists d, GlobWhole.Desc scandir cf dir_only gf curdir d /\
+                                   In h (GlobLemmas.shallow segmatch cf d m (Glob.iter scandir cf d dir_only)).
+Proof. exact GlobWhole.deep_sound. Qed.
+Print Assumptions C06_deep_walk_sound.
+
+Theorem C06_deep_walk_complete : forall scandir segmatch cf m dir_only gf fuel curdir hits,
+  Glob.glob_dir scandir segmatch cf fuel curdir m dir_only true gf = Some hits ->
+  forall d h, GlobWhole.Desc scandir cf dir_only gf curdir d ->
+              In h (GlobLemmas.shallow segmatch cf d m (Glob.iter scandir cf d dir_only)) -> In h hits.
+Proof. exact GlobWhole.deep_complete. Qed.
+Print Assumptions C06_deep_walk_complete.
